@@ -12,7 +12,7 @@ for d in sorted(glob.glob('/verif/seeded/C*-*')):
         mm = re.search(r'replay=/verif/replays/[A-Z0-9]+-(\S+?)\.txt', line)
         if mm and line.startswith('VIOLATION'):
             names.append(mm.group(1) + ('' if 'no-failing-input-found' in line else ' (counterexample replayed)'))
-    note = open(d + '/note.txt').read().strip().split('\n')[0][:110]
+    note = open(d + '/note.txt').read().strip().split('\n')[0][:110].replace('|', '\\|')
     rows.append((meta['id'], meta['breaks_property'], note, rc, '; '.join(names[:3]) + (' …' if len(names) > 3 else '')))
 print('| seed | breaks | change (first line of the author\'s note) | check exit | failed obligations |')
 print('|---|---|---|---|---|')
